@@ -41,6 +41,15 @@ func Lib() *ty.Env {
 		f("S", ty.Sl(ty.P(b("int")))), f("T", ty.M(b("int"), ty.P(ty.N(5)))), f("U", ty.Ar(2, ty.Sl(b("int"))))), false) // 20
 	add("X3", "ext", ty.St(f("a", b("string")), f("B", b("int8"))), true) // 21: comparable, unexported
 	add("NBy", "", ty.Sl(b("byte")), false)                               // 22
+	// same identifiers as declarations of p, in another package, with a different (pointer-holding) shape:
+	// anything keyed by a bare type name instead of the type confuses them
+	add("S1", "ext", ty.St(f("A", ty.P(b("int"))), f("B", ty.Sl(b("string")))), false)                                                   // 23
+	add("E0", "ext", ty.St(f("P", ty.P(b("int")))), false)                                                                               // 24
+	add("NI", "ext", ty.Sl(b("int")), false)                                                                                             // 25
+	add("SS", "", ty.St(f("L", ty.N(5)), f("R", ty.N(23)), f("E", ty.N(4)), f("F", ty.N(24)), f("N", ty.N(0)), f("M", ty.N(25))), false) // 26
+	add("SR", "", ty.St(f("R", ty.N(23)), f("L", ty.N(5)), f("M", ty.N(25)), f("N", ty.N(0))), false)                                    // 27
+	// field names that start with an underscore (unexported, but not blank)
+	add("UF", "", ty.St(f("_id", b("int")), f("_tags", ty.Sl(b("string"))), f("X", b("int")), f("_p", ty.P(b("int")))), true) // 28
 	return e
 }
 
